@@ -97,8 +97,8 @@ Proof. exact end_chunk_pauses. Qed.
 Print Assumptions C08_pause_on_chunk_count.
 
 (* resume: after any consumption step (_read_nowait_chunk, including the re-entrant feeding it may
-   trigger) the transport is paused only if the buffer is non-empty and at/above the low-water mark, or
-   at least low_water_chunks splits are outstanding.  `Wq true s` (0 <= low <= high, 2 <= lowc <= highc)
+   trigger) the transport is paused only if EOF was fed (nothing is resumed any more, b336e09), or the
+   buffer is non-empty and at/above the low-water mark, or at least low_water_chunks splits are outstanding.  `Wq true s` (0 <= low <= high, 2 <= lowc <= highc)
    holds in every reachable state when limit >= 0 (C08_water_marks_ordered). *)
 Theorem C08_resume_below_low_water : forall n f r s,
   Inv s -> Wq true s -> buf s = f :: r -> pause_justified (fst (rnc n f r s)).
@@ -121,11 +121,33 @@ Theorem C08_not_stuck : forall limit ops,
 Proof. exact not_stuck. Qed.
 Print Assumptions C08_not_stuck.
 
-Theorem C08_empty_buffer_is_reading : forall limit ops,
+(* a suspended reader implies an open stream *)
+Theorem C08_waiting_implies_not_eof : forall limit ops,
   let y := fst (run ops (init_sys limit)) in
-  buf (sst y) = [] -> paused (sst y) = false.
+  wt (sst y) = Waiting -> eof (sst y) = false.
+Proof. exact waiting_not_eof. Qed.
+Print Assumptions C08_waiting_implies_not_eof.
+
+(* Auxiliary, stronger than the property: on an OPEN stream an empty buffer is never left paused.
+   Since repair b336e09 (`not self._eof and ...` in the resume test: a completely received message no
+   longer touches the connection it may have given back) the hypothesis `eof = false` is needed:
+   feed_eof() itself resumes the transport, but a producer call that pauses AFTER EOF
+   (end_http_chunk_receiving with more than high_water_chunks splits outstanding) is no longer undone by
+   draining; see the example below.  No reader can be suspended in that state (C08_waiting_implies_not_eof),
+   so the property ("a blocked reader is never left with the transport paused", C08_not_stuck) is
+   unaffected, for every limit. *)
+Theorem C08_empty_buffer_is_reading_partial : forall limit ops,
+  let y := fst (run ops (init_sys limit)) in
+  eof (sst y) = false -> buf (sst y) = [] -> paused (sst y) = false.
 Proof. exact empty_buffer_reading. Qed.
-Print Assumptions C08_empty_buffer_is_reading.
+Print Assumptions C08_empty_buffer_is_reading_partial.
+
+Example C08_example_paused_after_eof :
+  let y := fst (run [OBegin; OFeed [1%N]; OEnd; OFeed [2%N]; OEnd; OFeed [3%N]; OEnd; OFeed [4%N]; OEnd;
+                     OFeed [5%N]; OEof; OEnd; OStart (CRead (-1))] (init_sys 1)) in
+  eof (sst y) = true /\ buf (sst y) = [] /\ paused (sst y) = true /\ task y = None.
+Proof. vm_compute. repeat split. Qed.
+Print Assumptions C08_example_paused_after_eof.
 
 (* ---- a reader does not hang once an exception is set (repair 497a2a6) ----------------------------
    In every reachable state: no reader is suspended on a pending waiter while self._exception is set
